@@ -216,6 +216,7 @@ func (cache *dirCache) retrieveFiles(target *core.BuildTarget, cacheDir string, 
 		return false, nil
 	}
 	cache.markDir(cacheDir, 0)
+	verifhook.Point("dircache.retrieve.exists")
 	if len(outs) == 0 {
 		return true, nil
 	}
